@@ -35,7 +35,7 @@ def run(tier):
 
     ck = Check("C08", tier)
     ck.assumptions += ASSUMPTIONS
-    br = common.build("C08", models=("lang", "blockstring"))
+    br = common.build("C08", models=("lang", "blockstring", "parser"))
     ck.proofs(br)
     m = Model() if br.ok else None
     quick = tier == "quick"
@@ -179,6 +179,12 @@ def run(tier):
     cblock.core(ck, tier, br.ok)
     ck.extra["block_rule"] = ck.rule
     ck.rule = rule0 + " (e) block strings: see coverage.block_rule"
+    if br.ok:
+        # tokens_of(model tree) vs re-lexed print_ast(impl tree), parse(print_ast d) == d, whole trees
+        from . import cparser
+        rule1 = ck.rule
+        cparser.core(ck, tier, ("corpus", "D"))
+        ck.rule = rule1 + " (f) parser/unparse model correspondence: see coverage.parser_rule"
     ck.samples.append({"string": strs[len(strs) // 2]})
     ck.samples.append({"document": texts[-1][0][:200]})
     return ck.finish()
